@@ -26,7 +26,7 @@ RULE = (
     "deprecates, or a nested project exists, and >=3 files are checked.  Distinct = SHA-1."
 )
 ASSUMPTIONS = ["IDF_PATH points at the generated root; target-specific rename files (sdkconfig.rename.<chip>) are not generated"]
-BUDGET = {"quick": {"examples": 3200}, "thorough": {"examples": 200000, "deadline_s": 1500}}
+BUDGET = {"quick": {"examples": 3200}, "thorough": {"examples": 700000, "deadline_s": 900}}
 
 SKELETON = (
     ".",
